@@ -508,7 +508,7 @@ class cmap_format_2(CmapSubtable):
         # negative number to an unsigned short.
 
         if minGI > 1:
-            if minGI > 0x7FFF:
+            if minGI > 0x8000:  # minGI - 1 still fits an int16 up to 0x8000
                 subHeader.idDelta = -(0x10000 - minGI) - 1
             else:
                 subHeader.idDelta = minGI - 1
@@ -516,7 +516,7 @@ class cmap_format_2(CmapSubtable):
             for i in range(subHeader.entryCount):
                 gid = subHeader.glyphIndexArray[i]
                 if gid > 0:
-                    subHeader.glyphIndexArray[i] = gid - idDelta
+                    subHeader.glyphIndexArray[i] = (gid - idDelta) % 0x10000
 
     def decompile(self, data, ttFont):
         # we usually get here indirectly from the subtable __getattr__ function, in which case both args must be None.
@@ -689,7 +689,8 @@ class cmap_format_2(CmapSubtable):
         # with the result that the subhead 0 would not get created just by processing the item list.
         # The same is true for an entirely empty (all-notdef) cmap, where there
         # are no char codes to process at all.
-        if not charCodes or charCodes[0] > 255:
+        mapped = [code for code, gid in zip(charCodes, gids) if gid != 0]
+        if not mapped or mapped[0] > 255:
             subHeader = SubHeader()
             subHeader.firstCode = 0
             subHeader.entryCount = 0
@@ -740,6 +741,10 @@ class cmap_format_2(CmapSubtable):
 
         # fix GI's and iDelta of last subheader that we we added to the subheader array.
         self.setIDDelta(subHeader)
+        if lastFirstByte == 0:
+            # only one-byte char codes: their keys still have to select subheader 0
+            for index in range(subHeader.entryCount):
+                subHeaderKeys[subHeader.firstCode + index] = 0
 
         # Now we add a final subheader for the subHeaderKeys which maps to empty two byte charcode ranges.
         subHeader = SubHeader()
